@@ -218,6 +218,7 @@ class Executor:
         s.merge_fns = []; s.blind = False; s.havoc_fns = []; s.memo_fns = []
         s.fork_sites = {} if os.environ.get('MIRSE_FORK_SITES') else None
         s.block_hook = None; s.drop_hook = None; s.move_hook = None
+        s.str_cap = 40
         s._stack = []
 
     # ---- solver
